@@ -34,6 +34,7 @@ pub struct TlsParams {
     pub alpn: Vec<Vec<u8>>,
     pub seg: Cut,
     pub max_fragment: Option<usize>,
+    pub pace: Option<crate::world::Pace>,
 }
 
 pub struct TlsSession {
@@ -80,6 +81,7 @@ pub async fn tls_connect(conn: PeerConn, p: TlsParams, rng: Rng) -> Result<TlsSe
         conn,
         seg: p.seg,
         rng,
+        pace: p.pace,
     };
     let connector = tokio_rustls::TlsConnector::from(Arc::new(cfg));
     let stream = connector
